@@ -8,7 +8,7 @@ from __future__ import annotations
 
 import itertools
 
-from .. import core, families
+from .. import core, families, routes as RT
 from ..models import search as M
 
 PROPERTY = 'C07'
@@ -94,6 +94,7 @@ def run_shard(shard, acc):
     kind = shard['kind']
     pats = SHORT_PATTERNS if kind == 'short' else BYTE_PATTERNS
     pat_objs = {p: bs.Bits(bin=p) for p in pats}
+    ctx = RT.Ctx()
     with core.watchdog(1500):
         for di, d in enumerate(shard['data']):
             L = len(d)
@@ -108,11 +109,28 @@ def run_shard(shard, acc):
                 s = cls(bin=d)
                 acc.state((cls_name, d, opt))
                 explore_state(bs, acc, cls_name, s, d, opt, pats, pat_objs, windows, kind)
+            # the same searches on objects that are views of a longer source (a stride of the contents, with a reduced window menu)
+            if (di + shard['idx']) % 7 == 0 and L <= 64:
+                core.set_options()
+                for r in ('file_len', 'file_off3_len', 'bytes_off3', 'bytesio', 'stepslice'):
+                    try:
+                        v = RT.build(bs, r, cls_name, d, ctx)
+                    except Exception:  # noqa: BLE001
+                        continue
+                    if v is None:
+                        continue
+                    acc.state((cls_name, d, r))
+                    explore_state(bs, acc, cls_name, v, d, False, pats[:6], pat_objs, windows[::7] + [(None, None)], kind, src=RT.source(r, cls_name, d))
     core.set_options()
+    ctx.close()
 
 
-def explore_state(bs, acc, cls_name, s, d, opt, pats, pat_objs, windows, kind):
+_SRC = [None]
+
+
+def explore_state(bs, acc, cls_name, s, d, opt, pats, pat_objs, windows, kind, src=None):
     L = len(d)
+    _SRC[0] = src
     full = acc.tier == 'thorough'
     # count
     for v in (0, 1, False, True):
@@ -248,6 +266,8 @@ def vkind(exp, got):
 
 def snip(cls_name, d, opt, expr, exp):
     pre = ["import bitstring", f"bitstring.options.bytealigned = {opt}", f"s = bitstring.{cls_name}(bin={d!r})"]
+    if _SRC[0] and cls_name != 'BitArray' or (_SRC[0] and 'replace' not in expr):
+        pre = [RT.SNIPPET_PRELUDE, f"bitstring.options.bytealigned = {opt}", f"s = {_SRC[0]}"]
     if exp[0] == 'ok':
         e = exp[1]
         body = [f"r = {expr}", f"assert r == {e!r}, r"]
